@@ -188,6 +188,19 @@ Definition send (now pto3 : Z) (produced : bool) (nev : Z) (c : conn) : Res (sen
     Ok (if produced then SClose else SNone, close_begin true now pto3 (set_pending false c))
   else Ok (if produced then SData else SNone, push_events (repeat EV_OTHER (Z.to_nat nev)) c).
 
+(* The same function with the POSITION of the transition out of close-pending (`self._close_pending = False;
+   self._close_begin(is_initiator=True, now=now)`) as a parameter.  uncond = true: the two statements end the close
+   branch, before builder.flush() -- every close round performs them (this is `send`).  uncond = false: they sit in the
+   post-flush `if datagrams:` block -- a close round that wrote no packet leaves the connection as it was.  The tree
+   under check is probed for the position (tools/gen/c09_consts.py -> gen/C09Consts.CLOSE_BEGIN_UNCONDITIONAL). *)
+Definition send_at (uncond : bool) (now pto3 : Z) (produced : bool) (nev : Z) (c : conn) : Res (sent * conn) :=
+  if negb (c_has_path c) then Ok (SNone, c) else
+  if is_end (c_state c) then Ok (SNone, c) else
+  if c_close_pending c then
+    Ok (if produced then SClose else SNone,
+        if uncond || produced then close_begin true now pto3 (set_pending false c) else c)
+  else Ok (if produced then SData else SNone, push_events (repeat EV_OTHER (Z.to_nat nev)) c).
+
 (* handle_timer(now) *)
 Definition timer (now : Z) (c : conn) : Res conn :=
   match c_close_at c with
@@ -283,7 +296,8 @@ Fixpoint run (c : conn) (ops : list op) : list ores * conn :=
    output per op: result (0 unit | exception code | 10+{0 none,1 data,2 close} | 20 no event, 21 other event,
                   30+kind termination event (a peer's close is printed as 32 like an error close: the
                   two carry the same fields on the implementation side) | 40 timer None, 41 v timer),
-                  then state class (0 live, 1 closing, 2 draining, 3 terminated) and len(_events). *)
+                  then state class (0 live, 1 closing, 2 draining, 3 terminated), len(_events), _close_pending (0 | 1)
+                  and _close_at (0 | 1 v). *)
 Definition state_class (s : cstate) : Z :=
   match s with FIRSTFLIGHT | CONNECTED => 0 | CLOSING => 1 | DRAINING => 2 | TERMINATED => 3 end.
 
@@ -298,7 +312,9 @@ Definition out_res (r : ores) : list Z :=
   | RTimer (Some v) => [41; v]
   end.
 
-Definition obs (c : conn) : list Z := [state_class (c_state c); Zlen (c_events c)].
+Definition obs (c : conn) : list Z :=
+  [state_class (c_state c); Zlen (c_events c); b2z (c_close_pending c)] ++
+  match c_close_at c with None => [0] | Some v => [1; v] end.
 
 Fixpoint tk_pkts (n : nat) (l : list Z) : list pkt * list Z :=
   match n with O => ([], l) | S n =>
